@@ -141,6 +141,8 @@ func (P) Generate(g *core.Gen) {
 	for i := g.N(3, 30); i > 0; i-- {
 		genFlushBoundary(g.R, emit)
 	}
+	// every per-key life cycle across leveldb / cache / pending (both tiers)
+	genLifecycle(g.R, emit)
 }
 
 // execPar runs the sub-lines (separated by "//") concurrently, each in its own
